@@ -1,6 +1,7 @@
 """C10 - no input from a peer can crash or wedge the Socket.IO decoder or the process."""
 import json
 import os
+import time
 
 from lib.vlib import gZ, gN, gnat, gbool, glist, gbytes, gopt, gpair
 
@@ -238,7 +239,17 @@ def run(ctx):
     vh = ctx.go_build()
     if vh is None:
         return
-    decoder_suite(ctx, vh, "corpus", ["-mode", "corpus"], 400)
-    decoder_suite(ctx, vh, "exhaustive", ["-mode", "exhaustive", "-maxlen", "3" if ctx.quick else "5", "-workers", "16"], 600)
-    live_suite(ctx, vh)
-    decoder_suite(ctx, vh, "mutate", ["-mode", "mutate", "-seed", ctx.seed, "-n", 1000 if ctx.quick else 30000], 250)
+    only = [x for x in os.environ.get("VERIF_C10_ONLY", "").split(",") if x]   # development aid: subset of suites
+    t0 = time.time()
+
+    def timed(name, f, *a):
+        if only and name not in only:
+            return
+        t = time.time()
+        f(*a)
+        ctx.note("suite %s: %.1fs" % (name, time.time() - t))
+
+    timed("corpus", decoder_suite, ctx, vh, "corpus", ["-mode", "corpus"], 400)
+    timed("live", live_suite, ctx, vh)
+    timed("exhaustive", decoder_suite, ctx, vh, "exhaustive", ["-mode", "exhaustive", "-maxlen", "3" if ctx.quick else "5", "-workers", "16"], 600)
+    timed("mutate", decoder_suite, ctx, vh, "mutate", ["-mode", "mutate", "-seed", ctx.seed, "-n", 1000 if ctx.quick else 30000], 250)
